@@ -23,6 +23,13 @@ Fixpoint accepted (n : Z) (evs : list event) : list send :=
   | _ :: r => accepted n r
   end.
 
+(* The honest environment of the C01 theorems: every result the client delivers accounts for every payload of the
+   request (no EResultOmit: a broker that leaves a partition out of its response is outside the fault model), and
+   building / handing over a request does not raise (no EBroken true: known finding F-C01-5). *)
+Definition honest_ev (e : event) : bool :=
+  match e with EResultOmit _ => false | EBroken b => negb b | _ => true end.
+Definition honest (evs : list event) : Prop := Forall (fun e => honest_ev e = true) evs.
+
 (* the payloads of the most recent send_produce_request *)
 Definition last_prod (outs : list output) (acc : option (list (tp * list (Z * Z)))) :=
   fold_left (fun a o => match o with OSendProduce _ _ pls => Some pls | _ => a end) outs acc.
